@@ -94,6 +94,9 @@ func (f *Fact) Pick(i int64, xs ...int64) int64 {
 }
 func (f *Fact) GetSub() *Sub { return f.P }
 
+// TagIs reads hidden receiver state (S): only a Forget/Changed naming the CALL invalidates its remembered result.
+func (f *Fact) TagIs(s string) bool { return f.S == s }
+
 // Boom always panics (a user method that fails whenever it is called).
 func (f *Fact) Boom() bool { panic("boom") }
 
